@@ -1126,6 +1126,14 @@ def store_random(W, n, maxlen):
                 ops.append({"op": "Remove", "sid": sid, "via": rnd.randint(0, 1)})
         for st in ("memory", "redis"):
             res.append({"id": "smrandom/%s/%d" % (st, k), "store": st, "abs": a, "idle": i, "ops": ops})
+    # a crowded store: more than a thousand other sessions are created between a write and the reads of it (ids do not interfere,
+    # whatever limits are configured - none, one of them, both)
+    for k, (a, i) in enumerate([(0, 0), (45, 0), (0, 30), (45, 30)]):
+        ops = [{"op": "SetTok", "sid": "s1", "v": 1, "via": 0}, {"op": "SetAuth", "sid": "s2", "v": 2, "via": 0}, {"op": "tick", "v": 2},
+               {"op": "flood", "sid": "x", "v": 1100, "via": 0}, {"op": "GetTok", "sid": "s1", "via": 0}, {"op": "GetAuth", "sid": "s2", "via": 0},
+               {"op": "flood", "sid": "y", "v": 1100, "via": 0}, {"op": "tick", "v": 3}, {"op": "GetTok", "sid": "s1", "via": 0}, {"op": "GetAuth", "sid": "s2", "via": 0}]
+        for st in ("memory", "redis"):
+            res.append({"id": "smflood/%s/%d" % (st, k), "store": st, "abs": a, "idle": i, "ops": ops})
     # Redis: one command of one operation fails. Either the operation reports it (nothing more is known about the id), or it
     # claims success and then everything must be as if it had succeeded
     k = 0
@@ -1309,6 +1317,18 @@ def timeout_system_scenarios(W):
                     steps += [{"op": "tick", "d": 40}, dict(app), {"op": "tick", "d": 40}, dict(app), {"op": "tick", "d": 40}, dict(app)]
                 res.append({"id": "c10sys/%s/a%d-i%d/%s" % (st, a, i, pattern), "cfg": {"filters": [dict(F1, store=st, abs=a, idle=i)]}, "steps": steps})
                 k += 1
+    # a crowded service: 1100 other sessions are created while a logged-in user is inside the limits; and a session used every 90 s for
+    # more than a day under an idle-only limit (no absolute limit configured means none)
+    for st in ("memory", "redis"):
+        for (a, i) in [(0, 100), (300, 0), (300, 100), (0, 0)]:
+            app_ = {"op": "check", "b": "b1", "f": "f1", "kind": "app", "cookie": "sid:1", "url": 1, "ans": long}
+            steps = [{"op": "browse", "b": "b1", "f": "f1", "url": 1, "ans": long}, {"op": "tick", "d": 20}, dict(app_),
+                     {"op": "flood", "f": "f1", "d": 1100, "ans": long}, dict(app_), {"op": "tick", "d": 30}, dict(app_)]
+            res.append({"id": "c10sys/%s/a%d-i%d/crowded" % (st, a, i), "cfg": {"filters": [dict(F1, store=st, abs=a, idle=i)]}, "steps": steps})
+        steps = [{"op": "browse", "b": "b1", "f": "f1", "url": 1, "ans": long}]
+        for _ in range(1000):
+            steps += [{"op": "tick", "d": 90}, {"op": "check", "b": "b1", "f": "f1", "kind": "app", "cookie": "sid:1", "url": 1, "ans": long}]
+        res.append({"id": "c10sys/%s/a0-i100/usedForMoreThanADay" % st, "cfg": {"filters": [dict(F1, store=st, abs=0, idle=100)]}, "steps": steps})
     # the login itself takes longer than the limits allow (the user sits at the provider's page), with and without a Redis
     # command of the redirect's store call failing: a login state that was handed out is bound by the timeouts too
     for st in ("memory", "redis"):
